@@ -682,6 +682,8 @@ lx_str_expr_harness!(4, 8, 6, lx_str_expr_text_plain_ascii_n4, true, &['a'], |c|
 lx_str_expr_harness!(4, 8, 6, lx_str_expr_text_expr_ascii_n4, false, &['a'], |c| 'a', |t| true, Txt::ascii_exact_fixed(&['a']));
 lx_str_expr_harness!(3, 8, 5, lx_str_expr_quote_plain_ascii_n3, true, &['"'], |c| '"', |t| true, Txt::ascii_exact_fixed(&['"']));
 lx_str_expr_harness!(4, 8, 6, lx_str_expr_quote_expr_ascii_n4, false, &['"'], |c| '"', |t| true, Txt::ascii_exact_fixed(&['"']));
+lx_str_expr_harness!(3, 8, 5, lx_str_expr_percent_ascii_n3, true, &['%'], |c| '%', |t| true, Txt::ascii_exact_fixed(&['%']));
+lx_str_expr_harness!(4, 8, 6, lx_str_expr_percent_ascii_n4, true, &['%'], |c| '%', |t| true, Txt::ascii_exact_fixed(&['%']));
 
 // the opening quote
 lx_harness! {
